@@ -36,6 +36,13 @@ for _b, _ph in ((0, "full"), (20, "almost")):
                              "primal infeasible", "dual infeasible", "gate open, neither", "pinf fails on dot_bz",
                              "pinf fails on res_primal_inf", "dinf fails on dot_qx", "dinf fails on res_dual_inf"]):
         BRANCH_NAMES[_b + _k] = "check_convergence_%s: %s" % (_ph, _n)
+    BRANCH_NAMES[_b + 14] = "check_convergence_%s: gap disjunction decided by gap_abs only" % _ph
+    BRANCH_NAMES[_b + 15] = "check_convergence_%s: gap disjunction, both members hold" % _ph
+BRANCH_NAMES[56] = "check_termination: previous-gap disjunction decided by prev_gap_abs only"
+BRANCH_NAMES[57] = "check_termination: previous-gap disjunction, both members hold"
+BRANCH_NAMES[58] = "check_termination: residual increase in res_dual only"
+BRANCH_NAMES[59] = "check_termination: residual increase in res_primal only"
+BRANCH_NAMES[65] = "check_termination: residual increase in both"
 for _k, _n in enumerate(["poor-progress skipped: status already set", "poor-progress skipped: iter <= 1", "poor-progress skipped: no residual increase",
                          "poor-progress block entered", "InsufficientProgress: ktratio < 100 eps and prev gap_abs < tol",
                          "InsufficientProgress: ktratio < 100 eps and prev gap_rel < tol", "ktratio < 100 eps but previous gaps above tol",
